@@ -49,6 +49,8 @@ def configs(tier):
             cfgs.append(dict(group='batch', wrapper=wr, shape='(n,2)', n=n, d=2, named=False))
         for d in range(1, dmax + 1):
             cfgs.append(dict(group='routing', wrapper=wr, d=d, _cost=24))
+        for named in (True, False):
+            cfgs.append(dict(group='typed_rows', wrapper=wr, d=2, named=named))
     cfgs.append(dict(group='river'))
     cfgs.append(dict(group='dispatch'))
     return cfgs
@@ -337,3 +339,36 @@ def _dispatch(env, cfg):
             env.notes['torch_dispatch'] = 'executed with real torch'
         else:
             env.notes['torch_dispatch'] = 'torch import blocked in this run (set SYMX_WITH_TORCH=1); dispatch on torch modules not executed'
+
+
+def _typed_rows(env, cfg):
+    """batches whose rows hold different concrete Python / NumPy types (ints first and floats later, bools first, a NumPy
+    float32 row): every row reaches the model with its own values, exactly as in one-at-a-time calls"""
+    import numpy as np
+    names = names_for('str', cfg['d'])
+    batches = [
+        [{'f0': 1, 'f1': 2}, {'f0': 0.5, 'f1': 1.75}, {'f0': 3, 'f1': 4}],
+        [{'f0': True, 'f1': False}, {'f0': 3, 'f1': 0.25}],
+        [{'f0': np.float32(0.5), 'f1': np.float32(2.0)}, {'f0': 1e-3, 'f1': 7}],
+        [{'f0': 2, 'f1': 3}, {'f0': 2 ** 40 + 0.5, 'f1': -0.125}],
+    ]
+    for bi, rows in enumerate(batches):
+        w, pred, tok = _make(env, dict(cfg, shape='(n,)'), list(names) if cfg['named'] else None)
+        try:
+            out = guarded(env, 'call_list', w, rows)
+            got = pred.inputs[-1]
+            env.claim('typed_batch_rows_reach_the_model_unchanged',
+                      got.shape == (len(rows), len(names)) and all(float(got[i, j]) == float(rows[i][f])
+                                                                   for i in range(len(rows)) for j, f in enumerate(names)),
+                      detail=f"batch {bi}: model received {got.tolist()} for rows {rows}")
+            w1, pred1, tok1 = _make(env, dict(cfg, shape='(1,)'), list(names) if cfg['named'] else None)
+            try:
+                for i, r in enumerate(rows):
+                    o1 = guarded(env, 'call_dict', w1, r)
+                    ok = isinstance(out, list) and len(out) == len(rows) and list(o1.keys()) == list(out[i].keys())
+                    env.claim('typed_batch_equals_one_at_a_time', ok and And(*[eq(o1[k], out[i][k]) for k in o1]),
+                              detail=f"batch {bi} row {i}")
+            finally:
+                _restore(tok1)
+        finally:
+            _restore(tok)
